@@ -112,8 +112,8 @@ impl Remap {
         let nr = b.spec.conn.num_right();
         // build the operated dictionary
         let mut ops = vec![];
-        let mut pl: Vec<u16> = (0..nl as u16).collect(); // composed: old -> new
-        let mut pr: Vec<u16> = (0..nr as u16).collect();
+        let mut pl: Vec<u16> = (0..nl).map(|x| x as u16).collect(); // composed: old -> new (up to 65536 ids)
+        let mut pr: Vec<u16> = (0..nr).map(|x| x as u16).collect();
         let mut nmap = 0;
         let mut user_loaded = false;
         let mut user_after_map = false;
@@ -240,8 +240,12 @@ impl Remap {
 #[derive(Clone, Debug, Serialize, Deserialize, PartialEq, Eq, Hash)]
 pub struct ExtremeMapCase {
     /// ids on the large side (65535 is the largest a matrix.def header can announce)
-    pub n_big: u16,
+    pub n_big: u32,
     pub n_small: u16,
+    /// connector kind: 0 = matrix.def (at most 65535 ids), 1 = raw bigram connector (one or two templates),
+    /// 2 = dual bigram connector with nine templates and a distinct feature per id (as many matrix-part classes as ids)
+    #[serde(default)]
+    pub conn: u8,
     /// true: the left side is the large one
     pub big_left: bool,
     /// permutation of the large side: 0 = identity, 1 = reversal, 2 = rotation by `k`, 3 = swap of the last id with id `k`
@@ -272,23 +276,25 @@ impl ExtremeMapCase {
     }
     pub fn expand(&self) -> MapCase {
         use crate::gen::dict::{CatSpec, CharDef, ConnSpec, DictSpec, MatrixSpec, RangeSpec, TokOpts, UnkRow};
-        let (nl, nr) = if self.big_left { (self.n_big, self.n_small) } else { (self.n_small, self.n_big) };
+        // numbers of ids incl. id 0; a matrix.def header cannot announce more than 65535
+        let n_big = if self.conn % 3 == 0 { self.n_big.min(65_535) } else { self.n_big.min(65_536) };
+        let (nl, nr): (u32, u32) = if self.big_left { (n_big, u32::from(self.n_small)) } else { (u32::from(self.n_small), n_big) };
         let salt = u32::from(self.salt);
         let idl = |i: u32| -> u16 {
-            match i % 4 {
+            (match i % 4 {
                 0 => nl - 1,
                 1 => 1 % nl,
-                2 => ((i.wrapping_mul(2654435761) ^ salt) % u32::from(nl)) as u16,
+                2 => (i.wrapping_mul(2654435761) ^ salt) % nl,
                 _ => nl / 2,
-            }
+            }) as u16
         };
         let idr = |i: u32| -> u16 {
-            match i % 4 {
+            (match i % 4 {
                 0 => 1 % nr,
                 1 => nr - 1,
-                2 => ((i.wrapping_mul(40503) ^ salt) % u32::from(nr)) as u16,
+                2 => (i.wrapping_mul(40503) ^ salt) % nr,
                 _ => nr / 2,
-            }
+            }) as u16
         };
         let mut lex = vec![];
         for (i, sf) in ["a", "b", "ab", "c", "ca", "bc", "a", "b"].iter().enumerate() {
@@ -318,10 +324,43 @@ impl ExtremeMapCase {
                 UnkRow { cat: 1, left: 0, right: 0, cost: 10, feature: "U,SPACE".into() },
             ],
             lex,
-            conn: ConnSpec::Matrix(MatrixSpec { num_right: nr, num_left: nl, cells }),
+            conn: match self.conn % 3 {
+                0 => ConnSpec::Matrix(MatrixSpec { num_right: nr as u16, num_left: nl as u16, cells }),
+                kind => {
+                    // bigram model reproducing a sparse cost function: K templates; the feature of id i at
+                    // every position is "r{i mod m}" / "l{i mod m}" (raw: m = 7, ids share features) or "r{i}" / "l{i}"
+                    // (dual: every id its own class); cost lines for the pairs of the cells above plus a few more
+                    let k = if kind == 2 { 9 } else { 1 + (self.salt % 2) as usize };
+                    let m: u32 = if kind == 2 { u32::MAX } else { 7 };
+                    let rows = |n: u32, side: char| -> Vec<Vec<String>> { (1..n).map(|i| vec![format!("{side}{}", i % m); k]).collect() };
+                    let mut costs = vec![];
+                    let mut seen = std::collections::HashSet::new();
+                    for (r, l, c) in &cells {
+                        let rf = if *r == 0 { String::new() } else { format!("r{}", u32::from(*r) % m) };
+                        let lf = if *l == 0 { String::new() } else { format!("l{}", u32::from(*l) % m) };
+                        if seen.insert((rf.clone(), lf.clone())) {
+                            costs.push((rf, lf, i32::from(*c)));
+                        }
+                    }
+                    if kind == 2 {
+                        // every feature of the large side is listed in bigram.cost: otherwise unlisted features collapse
+                        // into one class and the pre-summed matrix stays small
+                        let (bn, bs, ss, sn) = if self.big_left { (nl, 'l', 'r', nr) } else { (nr, 'r', 'l', nl) };
+                        for i in 1..bn {
+                            let big = format!("{bs}{i}");
+                            let small = format!("{ss}{}", 1 + i % (sn - 1).max(1));
+                            let (rf, lf) = if self.big_left { (small, big) } else { (big, small) };
+                            if seen.insert((rf.clone(), lf.clone())) {
+                                costs.push((rf, lf, ((i * 31 + salt) % 15) as i32 - 7));
+                            }
+                        }
+                    }
+                    ConnSpec::Bigram { model: crate::gen::bigram::BigramModel { right_rows: rows(nr, 'r'), left_rows: rows(nl, 'l'), costs }, dual: kind == 2 }
+                }
+            },
             csv_style: 0,
         };
-        let big = usize::from(self.n_big);
+        let big = n_big as usize;
         let small = usize::from(self.n_small);
         let mk = |kind_big: u8, kind_small: u8| -> Mapping {
             let b = self.perm_list(big, kind_big);
@@ -363,28 +402,30 @@ impl Sub for RemapExtreme {
         "remap_extreme"
     }
     fn max_shrink_iters(&self) -> u32 {
-        60
+        12
     }
     fn strategy(&self, _tier: Tier) -> BoxedStrategy<ExtremeMapCase> {
         (
-            prop_oneof![5 => Just(65_535u16), 3 => 65_530u16..=65_534, 1 => 255u16..=257, 1 => 32_767u16..=32_769],
+            prop_oneof![4 => Just(65_535u32), 3 => Just(65_536u32), 3 => 65_530u32..=65_534, 1 => 255u32..=257, 1 => 32_767u32..=32_769],
             2u16..=4,
             any::<bool>(),
             0u8..4,
             any::<u16>(),
             0u8..6,
             any::<u16>(),
+            prop_oneof![6 => Just(0u8), 3 => Just(1u8), 1 => Just(2u8)],
         )
-            .prop_map(|(n_big, n_small, big_left, perm, k, history, salt)| ExtremeMapCase { n_big, n_small, big_left, perm, k, history, salt })
+            .prop_map(|(n_big, n_small, big_left, perm, k, history, salt, conn)| ExtremeMapCase { n_big, n_small, big_left, perm, k, history, salt, conn })
             .boxed()
     }
     fn rule(&self) -> String {
-        "matrix connectors with 65535 (the largest a header can announce; half of the cases), 65530..65534, 32767..32769 or 255..257 ids on one side and 2-4 on the other; words, unknown entries and 40 cells on the first, last,          middle and scattered ids; the large side permuted by the identity, a reversal, a rotation or a swap of the last id, the small side reversed; histories [map], [map,map], [user,map], [map,user], [map,write/read], [user,map,map];          oracle: the 'remap' oracle (every valid mapping is accepted; tokens equal up to π; cost'(π(r),π(l)) == cost(r,l) for every pair); non-trivial = ≥ 65530 ids and a non-identity permutation; distinct = hash(case)".into()
+        "connectors with 65536 (bigram connectors only: every u16 id in use), 65535 (the largest a matrix.def header can announce), 65530..65534, 32767..32769 or 255..257 ids on one side and 2-4 on the other — matrix.def, raw bigram connector (1-2 templates, ids sharing features) or dual bigram connector (9 templates, one class per id); words, unknown entries and 40 cells on the first, last,          middle and scattered ids; the large side permuted by the identity, a reversal, a rotation or a swap of the last id, the small side reversed; histories [map], [map,map], [user,map], [map,user], [map,write/read], [user,map,map];          oracle: the 'remap' oracle (every valid mapping is accepted; tokens equal up to π; cost'(π(r),π(l)) == cost(r,l) for every pair); non-trivial = ≥ 65530 ids and a non-identity permutation; distinct = hash(case)".into()
     }
     fn check(&self, case: &ExtremeMapCase, ctx: &mut Ctx) -> Result<(), String> {
         let mc = case.expand();
         Remap.check_case(&mc, ctx)?;
         ctx.label_if(case.n_big == 65_535, "exactly_65535_ids");
+        ctx.label_if(case.n_big == 65_536 && case.conn % 3 != 0, "exactly_65536_ids_bigram_connector");
         ctx.label_if(case.big_left, "large_left_side");
         ctx.label_if(!case.big_left, "large_right_side");
         ctx.label(match case.perm {
